@@ -483,12 +483,19 @@ func (r *Reader) writeMarkdownListItem(sb *strings.Builder, para *parsedParagrap
 		isOrdered = !ll.IsBullet
 	}
 
-	if isOrdered {
-		// Initialize counter for this level if needed
-		key := para.StyleName
-		if listCounters[key] == nil {
-			listCounters[key] = make(map[int]int)
+	// An item at this level ends the sub-lists of the previous item: their
+	// numbering starts again at 1 under the new item.
+	key := para.StyleName
+	if listCounters[key] == nil {
+		listCounters[key] = make(map[int]int)
+	}
+	for lvl := range listCounters[key] {
+		if lvl > para.ListLevel {
+			delete(listCounters[key], lvl)
 		}
+	}
+
+	if isOrdered {
 		listCounters[key][para.ListLevel]++
 		num := listCounters[key][para.ListLevel]
 		sb.WriteString(fmt.Sprintf("%d. ", num))
@@ -519,11 +526,18 @@ func (r *Reader) writeParagraphText(sb *strings.Builder, para *parsedParagraph, 
 			}
 		}
 
-		if isOrdered {
-			key := para.StyleName
-			if listCounters[key] == nil {
-				listCounters[key] = make(map[int]int)
+		// An item at this level ends the sub-lists of the previous item
+		key := para.StyleName
+		if listCounters[key] == nil {
+			listCounters[key] = make(map[int]int)
+		}
+		for lvl := range listCounters[key] {
+			if lvl > para.ListLevel {
+				delete(listCounters[key], lvl)
 			}
+		}
+
+		if isOrdered {
 			listCounters[key][para.ListLevel]++
 			num := listCounters[key][para.ListLevel]
 			sb.WriteString(fmt.Sprintf("%d. ", num))
